@@ -275,7 +275,7 @@ def factory_roundtrip(kind):
         """
         post: _
         """
-        if len(value) != 16 or not (1 <= n1 <= 255 and 1 <= n2 <= 255 and 1 <= n3 <= 255 and 0 <= prime < 2 ** 61
+        if len(value) != 16 or not (1 <= n1 <= 255 and 1 <= n2 <= 255 and 1 <= n3 <= 255 and prime in (2, 104729, 2 ** 61 - 1)
                                    and 0 <= mi <= 2 and 0 <= ai <= 1 and 0 <= fi <= 1):
             return True
         f = pfactory.ObjectFactory()
@@ -455,7 +455,7 @@ def conditions(tier):
     for k in stubs.KINDS:
         out.append(Cond("factory-roundtrip-%s" % k, "factory_roundtrip", dict(kind=k),
                         bounds="%s with 16 arbitrary value bytes; split key parts / part identifier / threshold in 1..255, "
-                               "prime field size absent or < 2^61, 3 split methods; 2 algorithm / format / data-type members"
+                               "prime field size absent / 2 / 104729 / 2^61-1 (a Big Integer: its digits are realised by the encoder), 3 split methods; 2 algorithm / format / data-type members"
                                % k, timeout=600, part="conversion"))
     for attr in ("Object Group", "Application Specific Information"):
         out.append(Cond("keypair-attributes-%s" % attr.replace(" ", ""), "ckp_attributes", dict(attr=attr),
